@@ -9,7 +9,9 @@ status retries, and the pool-level redirect branch), the network deciding the ou
 attempt — for **every** `Retry` value `r` (any counters, also negative / `False`), both values of
 `redirect`, every request `q` (method string, body or not), every attempt offset `i`, every outcome
 script of any length (errors, replies, replies carrying a `Location`), and both kinds of pool
-(`cfg.proxied`); `urlopen` is the entry with `Retry.from_int` in front.  No statement is restricted:
+(`cfg.proxied`); `urlopen` is the entry with `Retry.from_int` in front.  No statement is restricted
+(`C04_proxied_classification` excludes the one outcome that is *meant* to differ behind a proxy, a
+failed TLS handshake with the proxy, and `C04_proxy_handshake_failure_is_other` states that case):
 the former finding `proxy-read-reset-relabelled-proxyerror` is repaired in the code
 (`HTTPConnection.getresponse` keeps `has_connected_to_proxy` across the `close()` that `http.client`
 performs on `ConnectionError`), `C04_nonidempotent_not_resent` holds for direct and proxied pools
@@ -98,6 +100,7 @@ theorem C04_direct_classification (o : Outcome) :
     chargedTo ⟨false⟩ o =
       match o with
       | .connectError _ => some .connect
+      | .handshakeError _ => some .read      -- TLS handshake with the origin itself: ReadTimeoutError / ProtocolError
       | .sendError _ => some .read
       | .readError _ => some .read
       | .otherError => some .other
@@ -107,6 +110,7 @@ theorem C04_direct_classification (o : Outcome) :
         else if st != 0 then some .status else none := by
   cases o with
   | connectError k => cases k <;> rfl
+  | handshakeError k => cases k <;> rfl
   | sendError k => cases k <;> rfl
   | readError k => cases k <;> rfl
   | otherError => rfl
@@ -116,19 +120,49 @@ theorem C04_direct_classification (o : Outcome) :
     · simp [chargedTo, eventOf, respOf, Outcome.redirectLocation, h, Event.cat]
     · simp [chargedTo, eventOf, respOf, Outcome.redirectLocation, h, Event.cat]
 
-/-- behind a proxy every kind of read error is charged to `read`, exactly as on a direct pool, and a
-failure to reach the proxy is still a connect error (the former finding
+/-- behind a proxy every kind of send / read error is charged to `read`, exactly as on a direct pool,
+and a failure to reach the proxy is still a connect error (the former finding
 `proxy-read-reset-relabelled-proxyerror`: reset / EOF used to be wrapped as `ProxyError` and
-charged to `other`) -/
-theorem C04_proxied_classification (o : Outcome) :
+charged to `other`).  The one outcome that is classified differently is a failed TLS handshake with
+the first hop: behind a proxy that hop is the proxy (`C04_proxy_handshake_failure_is_other`). -/
+theorem C04_proxied_classification (o : Outcome) (hh : ∀ k, o ≠ .handshakeError k) :
     chargedTo ⟨true⟩ o = chargedTo ⟨false⟩ o := by
   cases o with
+  | handshakeError k => exact absurd rfl (hh k)
   | connectError k => cases k <;> rfl
   | sendError k => cases k <;> rfl
   | readError k => cases k <;> rfl
   | otherError => rfl
   | response st ra => rfl
   | located st ra => rfl
+
+example : ∀ k, Outcome.readError .reset ≠ .handshakeError k := by intro k; exact Outcome.noConfusion
+
+/-- the TLS handshake with an HTTPS proxy fails (times out / is reset) after the proxy accepted the TCP
+connection: `has_connected_to_proxy` is still `False`, so the error reaches `Retry.increment` as
+`ProxyError(ReadTimeoutError)` resp. `ProxyError(ConnectionResetError)`; `_is_connection_error`
+unwraps it and finds no `ConnectTimeoutError`, `_is_read_error` does not unwrap: it is charged to
+`other` — never to `read` (the request has not been written), and `allowed_methods` is not consulted -/
+theorem C04_proxy_handshake_failure_is_other (k : HandshakeKind) :
+    chargedTo ⟨true⟩ (.handshakeError k) = some .other ∧
+    (∃ c, translate ⟨true⟩ (.handshakeError k) = .proxy c) ∧
+    (Outcome.handshakeError k).sent = false ∧
+    ∀ rd, reachedServer rd (.handshakeError k) = false := by
+  cases k <;> exact ⟨rfl, ⟨_, rfl⟩, rfl, fun _ => rfl⟩
+
+/-- `C04_category_budgets` at `other` for the handshake with the proxy, spelled out (the scripts of
+seeded C04-m7): `other=0` stops the first retry although `read=3` would pay for three; a POST is
+retried on the `other` budget (it cannot have reached the server) -/
+theorem C04_proxy_handshake_timeout_is_other :
+    (runAttempts ⟨true⟩ { Retry.default with total := .num 5, read := .num 3, other := .num 0 } true ⟨GET, 0, false⟩ 0
+      [.handshakeError .timeout, .response 200 none]).outcomes = [.handshakeError .timeout] ∧
+    (runAttempts ⟨true⟩ { Retry.default with total := .num 5, read := .num 3, other := .num 0 } true ⟨GET, 0, false⟩ 0
+      [.handshakeError .timeout, .response 200 none]).result = .maxRetry (.error (.proxy .readTimeout)) ∧
+    (runAttempts ⟨true⟩ { Retry.default with read := .num 0 } true ⟨POST, 0, true⟩ 0
+      [.handshakeError .timeout, .response 200 none]).result = .response 1 200 ∧
+    ((runAttempts ⟨true⟩ { Retry.default with read := .num 0 } true ⟨POST, 0, true⟩ 0
+      [.handshakeError .timeout, .response 200 none]).sent.map (·.outcome)) = [.response 200 none] := by
+  decide
 
 /-- the four read errors behind a proxy, spelled out (positive counterpart of the former
 `C04_proxied_reset_charged_other`) -/
@@ -155,6 +189,7 @@ theorem C04_followed_le_redirect_budget (cfg : Cfg) (r : Retry) (rd : Bool) (q :
     simp [chargedTo, eventOf, respOf, hloc, Event.cat]
   | response st ra => rw [ho] at hloc; simp [Outcome.redirectLocation] at hloc
   | connectError k => rw [ho] at hloc; simp [Outcome.redirectLocation] at hloc
+  | handshakeError k => rw [ho] at hloc; simp [Outcome.redirectLocation] at hloc
   | sendError k => rw [ho] at hloc; simp [Outcome.redirectLocation] at hloc
   | readError k => rw [ho] at hloc; simp [Outcome.redirectLocation] at hloc
   | otherError => rw [ho] at hloc; simp [Outcome.redirectLocation] at hloc
@@ -223,6 +258,7 @@ theorem C04_nonidempotent_not_resent (cfg : Cfg) (r : Retry) (rd : Bool) (q : Rq
           subst hmm
           simp [hm] at hret
         | connectError k => simp [reachedServer] at ho
+        | handshakeError k => simp [reachedServer] at ho
         | otherError => simp [reachedServer] at ho
       | succ j =>
         simp only [Run.cons, List.getElem?_cons_succ] at hj
@@ -300,6 +336,7 @@ theorem C04_false_reraises (cfg : Cfg) (r : Retry) (rd : Bool) (q : Rq) (i : Nat
   | response st ra => simp [Outcome.isError] at ho
   | located st ra => simp [Outcome.isError] at ho
   | connectError k => simp [runAttempts, onError, Retry.increment, ht, Run.stop]
+  | handshakeError k => simp [runAttempts, onError, Retry.increment, ht, Run.stop]
   | sendError k => simp [runAttempts, onError, Retry.increment, ht, Run.stop]
   | readError k => simp [runAttempts, onError, Retry.increment, ht, Run.stop]
   | otherError => simp [runAttempts, onError, Retry.increment, ht, Run.stop]
@@ -700,6 +737,7 @@ theorem C04_exhaustion_surface (cfg : Cfg) (r : Retry) (rd : Bool) (q : Rq) (i :
         | response st ra => simp [eventOf, respOf] at he; split at he <;> cases he
         | located st ra => simp [eventOf, respOf] at he; split at he <;> cases he
         | connectError k => simp only [eventOf, respOf, Event.error.injEq] at he; exact ⟨rfl, he.symm⟩
+        | handshakeError k => simp only [eventOf, respOf, Event.error.injEq] at he; exact ⟨rfl, he.symm⟩
         | sendError k => simp only [eventOf, respOf, Event.error.injEq] at he; exact ⟨rfl, he.symm⟩
         | readError k => simp only [eventOf, respOf, Event.error.injEq] at he; exact ⟨rfl, he.symm⟩
         | otherError => simp only [eventOf, respOf, Event.error.injEq] at he; exact ⟨rfl, he.symm⟩
